@@ -152,6 +152,7 @@ def level2_library(name, lang, cfi, debug=False):
     fs = [F("ci", "int", [P("s", "cstr_in")]),
           F("so", "void", [n_(), P("s", "cstr_out", charlen=12)]),
           F("sio", "void", [n_(), P("s", "cstr_inout")]),
+          F("sgrow", "void", [n_(), P("cap", "val", "int", role="cap"), P("s", "cstr_inout")]),
           F("sres", "cstr", [n_()]),
           F("sresl", {"kind": "cstr_len", "N": 8}, [n_()])]
     if lang == "c++":
@@ -199,10 +200,14 @@ def level2_plan(lib, N):
                 for n in range(0, N + 3):
                     add({"n": n}, {sp["name"]: L})
         else:                                            # inout
+            has_cap = any(p.get("role") == "cap" for p in f["params"])
             for L in range(0, N + 1):
                 for t in range(0, L + 1):
                     for n in sorted({0, t, max(t - 1, 0), L, L + 2}):
-                        add({"n": n, sp["name"]: PAT[3:3 + t]}, {sp["name"]: L})
+                        a = {"n": n, sp["name"]: PAT[3:3 + t]}
+                        if has_cap:
+                            a["cap"] = L        # documented: the Fortran variable's length is the capacity handed to C
+                        add(a, {sp["name"]: L})
     return plan
 
 
